@@ -3,6 +3,9 @@
 split  : OutputBuilder.build on records of *symbolic length* (abstract byte strings) carried by 1..K input packets each: synthetic
          three-way handshake, re-splitting into <= k contiguous parts that cover the record, gap-free sequence numbers and
          consistent acknowledgements - decided by z3 over all lengths below 2^15+2^11.
+stream : main.run on a connection whose two application records span several segments each, the two directions' segments merged in
+         every interleaving: a receiver taking the written packets in file order sees gap-free sequence numbers and acknowledgements
+         of exactly the data written so far.
 writer : main.run's writer loop only ever receives complete Ether/IP(v6)/TCP-or-UDP frames with a numeric timestamp (no raw
          placeholders), for decryptable and undecryptable QUIC/TLS input.
 e2e    : sampled concrete scenarios through the real program; the output file is read by an independent strict pcapng reader
@@ -11,7 +14,7 @@ import random
 
 VALIDATE = False
 SITES = ["no-exception", "handshake-first", "parts-cover-record", "sequence-space-gap-free", "acks-consistent", "timestamps-from-record",
-         "writer-gets-frames-only", "lemma-L1", "e2e-well-formed"]
+         "writer-gets-frames-only", "lemma-L1", "e2e-well-formed", "stream-in-file-order"]
 MODELS = ["records: abstract byte strings with symbolic length (len() shimmed in output_builder)",
           "floor(n / k) evaluated as n // k under lemma L1 (floor(fl(n/k)) = n div k for n < 2^16, k <= 64), discharged by cvc5 (QF_BVFP) for every k used",
           "scapy recorder frames; byte-level serialisation and checksums are scapy's/dpkt's and are checked only on the concrete e2e samples"]
@@ -25,6 +28,13 @@ def configs(tier, seed):
     for ipv in (4, 6):
         for r in range(1, R + 1):
             out.append({"harness": "split", "name": "split-v%d-%drecords" % (ipv, r), "ipv": ipv, "records": r, "K": K, "mode": "stub"})
+    # the whole program on a connection whose records span several segments while the peer's segments arrive in between
+    for ipv in (4, 6):
+        for ver, suite, sname in (("TLS12", 0x009c, "TLS_RSA_WITH_AES_128_GCM_SHA256"), ("TLS13", 0x1301, "TLS_AES_128_GCM_SHA256")):
+            if tier == "quick" and (ipv, ver) in ((6, "TLS12"), (4, "TLS13")):
+                continue
+            out.append({"harness": "stream", "name": "stream-%s-v%d" % (ver, ipv), "version": ver, "suite": suite, "suite_name": sname, "ipv": ipv, "records": 2,
+                        "sym_dirs": False, "dirs": [0, 1], "min_len": 1, "max_len": 3, "grouping": "one", "seg_size": 20})
     out.append({"harness": "writer", "name": "writer-undecryptable-quic", "kind": "quic-garbage"})
     out.append({"harness": "writer", "name": "writer-quic-handshake-only", "kind": "quic-handshake"})
     out.append({"harness": "writer", "name": "writer-tls-and-quic", "kind": "mixed"})
@@ -36,6 +46,7 @@ def configs(tier, seed):
 
 def bounds(tier):
     return {"split": "1-%d records of symbolic length in [0, 2^15+2^11), each carried by 1..%d input packets (solver-chosen), any directions" % ((2, 3) if tier == "quick" else (3, 6)),
+            "stream": "TLS 1.2 / 1.3 GCM, IPv4 / IPv6, 2 records of 1-3 bytes in 20-byte segments, every interleaving of the two directions' segments",
             "writer": "12-byte long-header UDP payload with arbitrary first byte (long header, fixed bit) and version; QUIC handshake without stream data; TLS + QUIC in one capture",
             "e2e": "%d concrete sampled captures (TLS versions/suites, QUIC, mixed, undecryptable) checked by the strict reader" % (4 if tier == "quick" else 16)}
 
@@ -217,6 +228,112 @@ def _run_writer(cfg):
     return explore_cfg(scenario, cfg, timeout_ms=60000, sample_paths=1, max_paths=5000)
 
 
+def _stream_frames(cfg, items, ep, choose, concrete):
+    """Segments of the connection; the segments of the two application records are merged in a solver-chosen interleaving that keeps
+    each direction's order.  -> frames in capture order with increasing times."""
+    from tlv import e2e
+    from tlv.harness import pipeline as P
+    fr = e2e.concrete_frames(ep, items, seg_size=cfg["seg_size"]) if concrete else P.tcp_frames(ep, items, seg_size=cfg["seg_size"])
+    napp = [i for i, it in enumerate(items) if it.app is not None]
+    # frames of the two application records are the trailing ones: count them from the segment sizes
+    import math
+    na = math.ceil(len(items[napp[0]].data) / cfg["seg_size"])
+    nb = math.ceil(len(items[napp[1]].data) / cfg["seg_size"])
+    head, A, B = fr[:len(fr) - na - nb], fr[len(fr) - na - nb:len(fr) - nb], fr[len(fr) - nb:]
+    merges = []
+
+    def gen(i, j, acc):
+        if i == len(A) and j == len(B):
+            merges.append(tuple(acc))
+            return
+        if i < len(A):
+            gen(i + 1, j, acc + [0])
+        if j < len(B):
+            gen(i, j + 1, acc + [1])
+    gen(0, 0, [])
+    order = choose("interleaving", merges)
+    ia, ib, tail = iter(A), iter(B), []
+    for w in order:
+        tail.append(next(ia) if w == 0 else next(ib))
+    allf = list(head) + tail
+    if concrete:
+        return [(f[0], 100000000 + k * 1000) for k, f in enumerate(allf)]
+    return [(f[0], 100.0 + k) + tuple(f[2:]) for k, f in enumerate(allf)]
+
+
+def _run_stream(cfg):
+    from tlv.sx.core import ctx, sym_and, sym_choice
+    from tlv.harness import pipeline as P
+    from tlv.harness.common import explore_cfg
+    from tlv.oracle import scenario as SC
+    mods = P.setup_symbolic()
+
+    def scenario():
+        c = ctx()
+        src = SC.SymSrc()
+        items, keylog, meta = SC.build(cfg, src)
+        ep = P.Endpoint(ipv=cfg["ipv"])
+        frames = _stream_frames(cfg, items, ep, sym_choice, False)
+        try:
+            out, sessions = P.run_tls(mods, frames, P.keylog_objects(mods, keylog))
+        except Exception as e:
+            import traceback
+            c.fail("no-exception", "%s: %s %s" % (type(e).__name__, e, traceback.format_exc().splitlines()[-3:-1]))
+            return {"outcome": "exception"}
+        c.check(True, "no-exception")
+        # a receiver that takes the packets in file order: every segment starts where the previous one of its direction ended and
+        # acknowledges exactly what the peer has sent so far
+        nxt = {}
+        conds, shape = [], []
+        for k, (fr, ts) in enumerate(out):
+            t = fr.layer("TCP") if hasattr(fr, "layer") else None
+            if t is None:
+                shape.append("item %d is not a TCP frame" % k)
+                continue
+            d = t.sport == ep.s_port
+            fl = str(t.flags)
+            raw = fr.layer("Raw")
+            ln = len(raw.load) if raw is not None else 0
+            if fl == "S":
+                if k != 0 or d:
+                    shape.append("SYN at position %d" % k)
+                nxt[d] = t.seq + 1
+                continue
+            if fl == "SA":
+                if k != 1 or not d:
+                    shape.append("SYN-ACK at position %d" % k)
+                conds.append(t.ack == nxt.get(not d))
+                nxt[d] = t.seq + 1
+                continue
+            if True not in nxt or False not in nxt:
+                shape.append("data before the handshake (item %d)" % k)
+                break
+            conds.append(t.seq == nxt[d])
+            conds.append(t.ack == nxt[not d])
+            nxt[d] = nxt[d] + ln
+        c.check(not shape and len(out) >= 5, "handshake-first", "; ".join(shape[:3]) or "%d packets" % len(out))
+        c.check(sym_and(*conds) if conds else True, "stream-in-file-order", "a segment does not continue its direction's sequence space or acknowledges data not yet in the file")
+        return {"outcome": "%d packets" % len(out)}
+    return explore_cfg(scenario, cfg, timeout_ms=60000, sample_paths=1)
+
+
+def _replay_stream(cfg, inp):
+    from tlv import e2e
+    from tlv.harness import pipeline as P
+    from tlv.oracle import scenario as SC, pcapng
+    items, keylog, meta = SC.build(cfg, SC.ConcreteSrc(inp))
+    ep = P.Endpoint(ipv=cfg["ipv"])
+
+    def choose(name, options):
+        return options[inp[name]] if len(options) > 1 else options[0]
+    pk = _stream_frames(cfg, items, ep, choose, True)
+    res = e2e.run_tlexport(pk, e2e.keylog_text(keylog))
+    problems = list(res["problems"])
+    for key, cv in pcapng.reassemble(res["frames"]).items():
+        problems += cv["problems"]
+    return {"reproduced": bool(problems), "problems": problems[:4]}
+
+
 def _e2e_case(cfg):
     """Concrete sampled capture -> (packets, keylog text, args)"""
     from tlv import e2e
@@ -278,6 +395,8 @@ def run_config(cfg):
         return r
     if h == "writer":
         return _run_writer(cfg)
+    if h == "stream":
+        return _run_stream(cfg)
     return _run_e2e(cfg)
 
 
@@ -296,6 +415,8 @@ def replay(cfg, viol):
         return _replay_split(cfg, inp)
     if h == "writer":
         return _replay_writer(cfg, inp)
+    if h == "stream":
+        return _replay_stream(cfg, inp)
     return {"reproduced": None}
 
 
